@@ -366,6 +366,14 @@ def cases(tier):
             cs.append(Case("commission-N%d-stale-re" % N, h_commission,
                            {"N": N, "readdress": True, "dry_run": False, "which": "two", "nostore": False,
                             "stale": "sym"}))
+        if N <= 2:
+            # nothing (or too little) to hand out while units are still initialised from an earlier run:
+            # the sequence must still end by taking every unit out of initialisation mode
+            for which in ("empty", "one"):
+                for re_ in (False, True):
+                    cs.append(Case("commission-N%d-stale-%s-%s" % (N, which, "re" if re_ else "new"), h_commission,
+                                   {"N": N, "readdress": re_, "dry_run": False, "which": which, "nostore": False,
+                                    "stale": "sym"}))
         if N >= 2:
             # a unit that stores the address but never confirms it; with three units the other two can
             # clash afterwards, and the restart must not forget the failure
